@@ -154,13 +154,14 @@ def presence_guards(U):
     m = U.mod(APKF)
     have = [U.choice("v2", [False, True]), U.choice("v3", [False, True]), U.choice("v31", [False, True])]
     rng = random.Random(5)
-    a = _apk(m)
-    a._is_signed_v2, a._is_signed_v3, a._is_signed_v31 = have
-    sig = {}
+    sig, pairs = {}, []
     for flag, sid in zip(have, (SB.V2, SB.V3, SB.V31)):
         if flag:
             sig[sid] = [_signer(rng, sid != SB.V2)]
-            a._v2_blocks.append(m.APKV2SignatureBlock(sid, False, SB.scheme_block(sig[sid], sid != SB.V2)))
+            pairs.append((sid, SB.scheme_block(sig[sid], sid != SB.V2)))
+    # the object's state is the one the real parse_v2_v3_signature leaves behind for an archive with exactly these pairs (no field
+    # of the APK object is set by hand: how the pairs are kept is the code's business)
+    a = _apk(m, SB.zip_with_block(SB.signing_block(pairs)))
     for sid, v3, parse, attr in ((SB.V2, False, lambda: a.parse_v2_signing_block(), "_v2_signing_data"),
                                  (SB.V3, True, lambda: a.parse_v3_signing_block(), "_v3_signing_data"),
                                  (SB.V31, True, lambda: a.parse_v3_signing_block(True), "_v31_signing_data")):
